@@ -425,10 +425,10 @@ CHECK = Check(
         # (the side whose own request was answered frees the id and may hand it to a new channel while the peer's direction of
         # the old stream is still live: the old stream's late DATA / a channel nobody announced then show up on the new one)
         "reconfig-not-retransmitted": lambda fam, case, out: out.kind in ("close-incomplete", "transcript-extra-message", "transcript-corrupted",
-                                                                         "datachannel-unmatched", "never-opened", "undelivered") and bool(out.info.get("reconfig_dropped")),
+                                                                         "datachannel-unmatched", "datachannel-fields", "never-opened", "undelivered") and bool(out.info.get("reconfig_dropped")),
         # besides the half-closed channel, the old stream's late DATA can then surface on a channel that reuses the id
         "reset-overtakes-data": lambda fam, case, out: out.kind in ("close-incomplete", "transcript-extra-message", "transcript-corrupted",
-                                                                   "datachannel-unmatched", "never-opened", "undelivered") and bool(out.info.get("reset_overtook_data")),
+                                                                   "datachannel-unmatched", "datachannel-fields", "never-opened", "undelivered") and bool(out.info.get("reset_overtook_data")),
     },
     assumptions=["as C01; bufferedAmount is compared with the anchored _data_channel_queue"],
 )
